@@ -36,6 +36,7 @@ Effect(op, s, v) ==
     [] op = "GetAuth"   -> <<s, s.auth>>
     [] op = "ClearAuth" -> <<IF s.ex THEN [s EXCEPT !.auth = 0] ELSE s, 0>>
     [] op = "Remove"    -> <<None, 0>>
+    [] op = "sweep"     -> <<s, 0>>     \* the clean-up of timed-out sessions: no session that is within its limits is touched
     [] op = "flood"     -> <<s, 0>>     \* many other sessions are written: ids do not interfere
 
 Reset  == l <= Len(Trace) /\ E.ev = "sreset" /\ l' = l + 1 /\ m' = <<>> /\ pend' = <<>>
